@@ -676,6 +676,395 @@ macro_rules! transition_more { ($s:expr, $T:ty, $P:ident, $a:expr, $b:expr, $lab
     }
 }} }
 
+
+// =====================================================================================================
+// (added by the second-pass audit, out/AUDIT2.md) helpers
+// =====================================================================================================
+fn two_prod(a: f64, b: f64) -> (f64, f64) { let p = a * b; (p, a.mul_add(b, -p)) }
+fn two_sum(a: f64, b: f64) -> (f64, f64) { let s = a + b; let bb = s - a; (s, (a - (s - bb)) + (b - bb)) }
+/// dot product of two 4-vectors as an unevaluated sum hi + lo (error ~ eps^2: exact for all purposes here)
+fn dot4_dd(p: [f64; 4], q: [f64; 4]) -> (f64, f64) {
+    let (mut hi, mut lo) = (0.0f64, 0.0f64);
+    for i in 0..4 { let (pr, pe) = two_prod(p[i], q[i]); let (sm, se) = two_sum(hi, pr); hi = sm; lo += pe + se; }
+    two_sum(hi, lo)
+}
+/// |v| - 1 for a 4-vector whose length is close to 1, without the rounding error of the measurement
+fn norm_minus_one(g: [f64; 4]) -> f64 { let (hi, lo) = dot4_dd(g, g); let d = (hi - 1.0) + lo; d / (1.0 + (1.0 + d).sqrt()) }
+
+// ---- quaternion slerp / nlerp on a ladder of arc lengths: next to the near-parallel threshold, narrow, nearly orthogonal ----
+macro_rules! quat_narrow { ($s:expr, $F:ident) => {{
+    let s: &Section = $s;
+    let eps = $F::EPSILON as f64; let fname = stringify!($F);
+    let is32 = std::mem::size_of::<$F>() == 4;
+    let raw: [[f64; 4]; 7] = [[0.0, 0.0, 0.0, 1.0], [1.0, 0.0, 0.0, 0.0], [0.1, -0.5, 0.3, 0.8], [-0.7, 0.1, 0.1, -0.7], [0.5, 0.5, -0.5, 0.5], [0.02, 0.9, -0.3, 0.05], [-0.3, -0.2, 0.6, -0.4]];
+    let seeds: [[f64; 4]; 3] = [[0.0, 1.0, 0.0, 0.0], [0.3, -0.4, 0.8, 0.2], [0.0, 0.0, 1.0, 0.0]];
+    let d4 = |p: [f64; 4], q: [f64; 4]| p[0] * q[0] + p[1] * q[1] + p[2] * q[2] + p[3] * q[3];
+    let unit = |p: [f64; 4]| { let n = d4(p, p).sqrt(); [p[0] / n, p[1] / n, p[2] / n, p[3] / n] };
+    // arc lengths (angle between the two unit quaternions in R^4): the fallback threshold is cos > 1 - eps, i.e. angle < sqrt(2 eps)
+    // = 2.1e-8 (f64) / 4.9e-4 (f32); the f32 threshold is part of the f64 ladder (a constant typed with f32 precision)
+    let thr = (2.0 * eps).sqrt();
+    let mut angs: Vec<f64> = vec![0.5, 0.2, 0.1, 0.0316, 0.03, 0.01, 3e-3, 1.9e-3, 1.8e-3, 1e-3, 7e-4, 5e-4, 4.9e-4, 4.8e-4, 4e-4, 3e-4, 1e-4, 3e-5, 1e-5, 1e-6, 0.0,
+        thr * 4.0, thr * 2.0, thr * 1.5, thr * 1.1, thr * 1.01, thr, thr * 0.99, thr * 0.9, thr * 0.5, thr * 0.1];
+    if !is32 { angs.extend([1e-7, 1e-9, 1e-12]); }
+    let hp = std::f64::consts::FRAC_PI_2;
+    for d in [1e-1, 1e-2, 1e-3, 1e-4, 1e-6, 1e-9, 1e-12] { angs.push(hp - d); angs.push(hp + d); }
+    angs.extend([1.0, 1.3, 1.9, 2.6, 3.0]);
+    let mut facs: Vec<f64> = vec![-0.5, 0.0, 0.1, 0.25, 0.5, 0.75, 0.9, 1.0, 1.5, 2.0];
+    if s.thorough() {
+        for i in 1..=40 { angs.push(thr * 0.1 * i as f64); }                                               // a fine sweep across the threshold
+        for k in 1..=13 { for m in [1.0, 2.0, 5.0] { let v = m * 10f64.powi(-k); if v < 3.1 { angs.push(v); angs.push(hp - v); angs.push(hp + v); } } }
+        facs.extend([-1.0, 0.01, 1.0 / 3.0, 0.99, 1.25, 3.0]);
+    }
+    let arr = |r: Quaternion<$F>| -> [f64; 4] { [r.x as f64, r.y as f64, r.z as f64, r.w as f64] };
+    let bits = |r: Quaternion<$F>| [r.x.to_bits(), r.y.to_bits(), r.z.to_bits(), r.w.to_bits()];
+    let near = |p: [f64; 4], q: [f64; 4], t: f64| (0..4).all(|i| (p[i] - q[i]).abs() <= t);
+    let (mut n_fb, mut n_thr, mut n_narrow, mut n_orth, mut n_wide, mut n_skip, mut n_nl, mut evals) = (0u64, 0u64, 0u64, 0u64, 0u64, 0u64, 0u64, 0u64);
+    for r in &raw { let a0 = unit(*r); for sd in &seeds {
+        let k = d4(*sd, a0); let e0 = [sd[0] - k * a0[0], sd[1] - k * a0[1], sd[2] - k * a0[2], sd[3] - k * a0[3]];
+        if d4(e0, e0).sqrt() < 0.1 { continue; }
+        let e0 = unit(e0);
+        for &ang in &angs { for sign in [1.0f64, -1.0] {
+            let (sn, cs) = ang.sin_cos();
+            let a = Quaternion { x: a0[0] as $F, y: a0[1] as $F, z: a0[2] as $F, w: a0[3] as $F };
+            let b = Quaternion { x: (sign * (cs * a0[0] + sn * e0[0])) as $F, y: (sign * (cs * a0[1] + sn * e0[1])) as $F, z: (sign * (cs * a0[2] + sn * e0[2])) as $F, w: (sign * (cs * a0[3] + sn * e0[3])) as $F };
+            let (aa, ba) = (arr(a), arr(b));
+            // reference from the actual (rounded) inputs: compensated dot, Gram-Schmidt with one rounding per component
+            let (chi, clo) = dot4_dd(aa, ba); let c = chi + clo;
+            if c.abs() <= 64.0 * eps { n_skip += 1; continue; }      // the sign of the dot product is within rounding of zero: both arcs equally short
+            let sg = if c < 0.0 { -1.0 } else { 1.0 };
+            let bs = [sg * ba[0], sg * ba[1], sg * ba[2], sg * ba[3]];
+            let u: Vec<f64> = (0..4).map(|i| (-(sg * chi)).mul_add(aa[i], bs[i]) - sg * clo * aa[i]).collect();
+            let u = [u[0], u[1], u[2], u[3]];
+            let su = d4(u, u).sqrt();
+            let theta = su.atan2(c.abs());
+            if theta < thr * 0.95 { n_fb += 1; } else if theta <= thr * 4.0 { n_thr += 1; } else if theta < 0.05 { n_narrow += 1; } else if (theta - hp).abs() < 0.2 { n_orth += 1; } else { n_wide += 1; }
+            for &ff in &facs {
+                let f = ff as $F; let fc: $F = if f < 0.0 { 0.0 } else if f > 1.0 { 1.0 } else { f }; let ff = f as f64;
+                let inp = || json!({"from": aa, "to": ba, "factor": ff, "arc_angle": theta});
+                let want = if su == 0.0 { aa } else { let (s1, c1) = (ff * theta).sin_cos(); [c1 * aa[0] + s1 * u[0] / su, c1 * aa[1] + s1 * u[1] / su, c1 * aa[2] + s1 * u[2] / su, c1 * aa[3] + s1 * u[3] / su] };
+                // forward bound: coefficients sin(x theta)/sin(theta) are insensitive to the error of theta = acos(dot) (relative
+                // derivative f(1-f^2) theta/3 against an absolute error eps/theta), every other operation errs by <= 1 ulp of O(1+|f|) terms
+                let tol = 64.0 * eps * (1.0 + ff.abs()) * (1.0 + ff.abs());
+                let r = Quaternion::slerp_unclamped(a, b, f);
+                let g = arr(r);
+                let site = format!("Quaternion::slerp_unclamped<{}>", fname);
+                evals += 2;
+                if !(norm_minus_one(g).abs() <= tol) { s.violation_w(&site, "not-unit(narrow/threshold/orthogonal arc ladder)", json!({"input": inp(), "got": g, "norm_minus_1": norm_minus_one(g), "tolerance": tol}), (theta * 1e6) as u64); }
+                if !near(g, want, tol) { s.violation_w(&site, "not-on-the-shorter-great-arc-at-constant-angular-speed(arc ladder)", json!({"input": inp(), "got": g, "want": want, "tolerance": tol}), (theta * 1e6) as u64); }
+                let rc = Quaternion::slerp_unclamped(a, b, fc);
+                for (name, got, base) in [("Slerp::slerp_unclamped for Quaternion", <Quaternion<$F> as Slerp<$F>>::slerp_unclamped(a, b, f), r), ("Slerp::slerp_unclamped for &Quaternion", <&Quaternion<$F> as Slerp<$F>>::slerp_unclamped(&a, &b, f), r),
+                                          ("Quaternion::slerp", Quaternion::slerp(a, b, f), rc), ("Slerp::slerp for &Quaternion", <&Quaternion<$F> as Slerp<$F>>::slerp(&a, &b, f), rc)] {
+                    evals += 1;
+                    if bits(got) != bits(base) { s.violation(&format!("{}<{}>", name, fname), "differs-from-slerp_unclamped-at-the-(clamped)-factor", json!({"input": inp(), "got": arr(got), "slerp_unclamped": arr(base)})); }
+                }
+                // nlerp on the same pair: direction of the component interpolation, unit within the bound of x / sqrt(x.x)
+                // (4 products + 3 additions: 4u, sqrt: halves + u, division: u => |norm - 1| <= 4u = 2 eps; asserted at 3 eps)
+                for clamped in [false, true] {
+                    let t = if clamped { fc as f64 } else { ff };
+                    let l = [aa[0] + t * (ba[0] - aa[0]), aa[1] + t * (ba[1] - aa[1]), aa[2] + t * (ba[2] - aa[2]), aa[3] + t * (ba[3] - aa[3])];
+                    let nl = d4(l, l).sqrt();
+                    if nl < 0.05 { continue; }
+                    let wantn = [l[0] / nl, l[1] / nl, l[2] / nl, l[3] / nl];
+                    let toln = 16.0 * eps * (1.0 + t.abs()) / nl;
+                    let forms: [(&str, Quaternion<$F>); 4] = if clamped { [
+                        ("Lerp::lerp", <Quaternion<$F> as Lerp<$F>>::lerp(a, b, f)), ("Lerp::lerp_precise", <Quaternion<$F> as Lerp<$F>>::lerp_precise(a, b, f)),
+                        ("&Lerp::lerp", <&Quaternion<$F> as Lerp<$F>>::lerp(&a, &b, f)), ("&Lerp::lerp_precise", <&Quaternion<$F> as Lerp<$F>>::lerp_precise(&a, &b, f)) ] } else { [
+                        ("Lerp::lerp_unclamped", <Quaternion<$F> as Lerp<$F>>::lerp_unclamped(a, b, f)), ("Lerp::lerp_unclamped_precise", <Quaternion<$F> as Lerp<$F>>::lerp_unclamped_precise(a, b, f)),
+                        ("&Lerp::lerp_unclamped", <&Quaternion<$F> as Lerp<$F>>::lerp_unclamped(&a, &b, f)), ("&Lerp::lerp_unclamped_precise", <&Quaternion<$F> as Lerp<$F>>::lerp_unclamped_precise(&a, &b, f)) ] };
+                    for (name, got) in forms {
+                        evals += 1; n_nl += 1;
+                        let gn = arr(got); let site = format!("{} for Quaternion<{}>", name, fname);
+                        if !(norm_minus_one(gn).abs() <= 3.0 * eps) { s.violation_w(&site, "not-unit-within-the-bound-of-x/|x|", json!({"input": inp(), "got": gn, "norm_minus_1": norm_minus_one(gn), "bound": 3.0 * eps}), (theta * 1e6) as u64); }
+                        if !near(gn, wantn, toln) { s.violation_w(&site, "not-the-normalized-component-interpolation(arc ladder)", json!({"input": inp(), "got": gn, "want": wantn, "tolerance": toln}), (theta * 1e6) as u64); }
+                    }
+                }
+            }
+        } }
+    } }
+    s.evals(evals, evals);
+    s.class_n("arc below the fallback threshold", n_fb); s.class_n("arc within [0.95, 4] x threshold", n_thr); s.class_n("narrow arc (threshold x4 .. 0.05)", n_narrow);
+    s.class_n("nearly orthogonal pair (dot next to 0, both signs)", n_orth); s.class_n("ordinary arc", n_wide); s.class_n("skipped: |dot| <= 64 eps", n_skip); s.class_n("nlerp on the ladder", n_nl);
+}} }
+
+// ---- nlerp / unnormalized lerp: power-of-two scaling is exact, mixed magnitudes tell the precise formula from the fast one ----
+macro_rules! quat_scale { ($s:expr, $F:ident, $exps:expr) => {{
+    let s: &Section = $s;
+    let fname = stringify!($F); let eps = $F::EPSILON as f64;
+    let raw: [[f64; 4]; 6] = [[0.0, 0.0, 0.0, 1.0], [0.1, -0.5, 0.3, 0.8], [-0.7, 0.1, 0.1, -0.7], [0.5, 0.5, -0.5, 0.5], [0.02, 0.9, -0.3, 0.05], [-0.3, -0.2, 0.6, 0.4]];
+    let qs: Vec<Quaternion<$F>> = raw.iter().map(|r| { let n = (r[0] * r[0] + r[1] * r[1] + r[2] * r[2] + r[3] * r[3]).sqrt(); Quaternion { x: (r[0] / n) as $F, y: (r[1] / n) as $F, z: (r[2] / n) as $F, w: (r[3] / n) as $F } }).collect();
+    let arr = |r: Quaternion<$F>| -> [f64; 4] { [r.x as f64, r.y as f64, r.z as f64, r.w as f64] };
+    let bits = |r: Quaternion<$F>| [r.x.to_bits(), r.y.to_bits(), r.z.to_bits(), r.w.to_bits()];
+    let sc = |q: Quaternion<$F>, k: $F| Quaternion { x: q.x * k, y: q.y * k, z: q.z * k, w: q.w * k };
+    let facs: [$F; 7] = [-0.5, 0.0, 0.3, 0.5, 0.9, 1.0, 1.5];
+    let exps: &[i32] = $exps;
+    let (mut n_sc, mut n_mix, mut n_un) = (0u64, 0u64, 0u64);
+    for (ia, &a) in qs.iter().enumerate() { for (ib, &b) in qs.iter().enumerate() {
+        let d = { let (p, q) = (arr(a), arr(b)); p[0] * q[0] + p[1] * q[1] + p[2] * q[2] + p[3] * q[3] };
+        for &f in &facs {
+            type QF = Quaternion<$F>;
+            let base: [(&str, fn(QF, QF, $F) -> QF, bool); 8] = [
+                ("Lerp::lerp_unclamped for Quaternion", |a, b, f| <QF as Lerp<$F>>::lerp_unclamped(a, b, f), true), ("Lerp::lerp_unclamped_precise for Quaternion", |a, b, f| <QF as Lerp<$F>>::lerp_unclamped_precise(a, b, f), true),
+                ("Lerp::lerp_unclamped for &Quaternion", |a, b, f| <&QF as Lerp<$F>>::lerp_unclamped(&a, &b, f), true), ("Lerp::lerp_unclamped_precise for &Quaternion", |a, b, f| <&QF as Lerp<$F>>::lerp_unclamped_precise(&a, &b, f), true),
+                ("Quaternion::lerp_unclamped_unnormalized", |a, b, f| QF::lerp_unclamped_unnormalized(a, b, f), false), ("Quaternion::lerp_unclamped_precise_unnormalized", |a, b, f| QF::lerp_unclamped_precise_unnormalized(a, b, f), false),
+                ("Quaternion::lerp_unnormalized", |a, b, f| QF::lerp_unnormalized(a, b, f), false), ("Quaternion::lerp_precise_unnormalized", |a, b, f| QF::lerp_precise_unnormalized(a, b, f), false),
+            ];
+            // (1) scaling both endpoints by 2^e scales every intermediate exactly: nlerp is unchanged bit for bit, the unnormalized forms scale
+            let fa = f as f64; let lerped_len = (1.0 - 2.0 * fa * (1.0 - fa) * (1.0 - d)).max(0.0).sqrt();
+            for &e in exps { let k = (2.0 as $F).powi(e);
+                for (name, fun, normalized) in base.iter() {
+                    if *normalized && lerped_len < 0.05 { continue; }
+                    n_sc += 1;
+                    let r0 = fun(a, b, f); let r1 = fun(sc(a, k), sc(b, k), f);
+                    let want = if *normalized { r0 } else { sc(r0, k) };
+                    if bits(r1) != bits(want) && !(arr(r1) == arr(want)) { s.violation_w(&format!("{}<{}>", name, fname), "not-invariant-under-scaling-both-endpoints-by-a-power-of-two", json!({"from": arr(a), "to": arr(b), "factor": f as f64, "scale": format!("2^{}", e), "got": arr(r1), "want": arr(want)}), e.unsigned_abs() as u64); }
+                }
+            }
+            // (2) the unnormalized family on floats: exact ends, the clamped forms are the unclamped ones at the clamped factor
+            let fc: $F = if f < 0.0 { 0.0 } else if f > 1.0 { 1.0 } else { f };
+            for (name, fun, ufun, precise) in [("Quaternion::lerp_unclamped_unnormalized", base[4].1, base[4].1, false), ("Quaternion::lerp_unclamped_precise_unnormalized", base[5].1, base[5].1, true), ("Quaternion::lerp_unnormalized", base[6].1, base[4].1, false), ("Quaternion::lerp_precise_unnormalized", base[7].1, base[5].1, true)] {
+                // endpoints of very different magnitude in every lane: `to` survives factor 1 only in the precise formula
+                for (sa, sb) in [(1.0 as $F, 1.0 as $F), ((2.0 as $F).powi(40), (2.0 as $F).powi(-40)), ((2.0 as $F).powi(-40), (2.0 as $F).powi(40))] {
+                    let (p, q) = (sc(a, sa), sc(b, sb)); n_un += 1;
+                    let g = fun(p, q, f); let site = format!("{}<{}>", name, fname);
+                    let inp = || json!({"from": arr(p), "to": arr(q), "factor": f as f64, "got": arr(g)});
+                    if bits(g) != bits(ufun(p, q, fc)) && name.ends_with("_unnormalized") && !name.contains("unclamped") { s.violation(&site, "clamped-form-is-not-unclamped-of-clamped-factor", inp()); }
+                    let ff = if name.contains("unclamped") { f } else { fc };
+                    if ff == 0.0 && arr(g) != arr(p) { s.violation(&site, "endpoint-0-not-exact", inp()); }
+                    if ff == 1.0 && precise && arr(g) != arr(q) { s.violation(&site, "endpoint-1-not-exact", inp()); }
+                    let (pa, qa, ga) = (arr(p), arr(q), arr(g));
+                    for i in 0..4 { if let Some(w) = exact_lerp(pa[i], qa[i], ff as f64) {
+                        let tol = vx::fl::K * eps * pa[i].abs().max(qa[i].abs()) * (1.0 + (ff as f64).abs()) * 2.0;
+                        if !((ga[i] - w).abs() <= tol) { s.violation(&site, "not-affine-within-error-bound", json!({"input": inp(), "lane": i, "want": w, "tolerance": tol})); }
+                    } }
+                }
+            }
+            // (3) nlerp of endpoints of very different magnitude (both squared lengths representable): the precise forms reach the
+            //     direction of `to` at factor 1 (from*(1-1) + to*1 = to exactly); every form reaches the direction of `from` at 0
+            if ia != ib { for (sa, sb) in [((2.0 as $F).powi(40), (2.0 as $F).powi(-40)), ((2.0 as $F).powi(-40), (2.0 as $F).powi(40))] {
+                let (p, q) = (sc(a, sa), sc(b, sb));
+                let near = |g: [f64; 4], w: [f64; 4]| (0..4).all(|i| (g[i] - w[i]).abs() <= 8.0 * eps);
+                let forms: [(&str, QF, bool, bool); 8] = [
+                    ("Lerp::lerp_unclamped for Quaternion", <QF as Lerp<$F>>::lerp_unclamped(p, q, f), false, false), ("Lerp::lerp_unclamped_precise for Quaternion", <QF as Lerp<$F>>::lerp_unclamped_precise(p, q, f), true, false),
+                    ("Lerp::lerp_unclamped for &Quaternion", <&QF as Lerp<$F>>::lerp_unclamped(&p, &q, f), false, false), ("Lerp::lerp_unclamped_precise for &Quaternion", <&QF as Lerp<$F>>::lerp_unclamped_precise(&p, &q, f), true, false),
+                    ("Lerp::lerp for Quaternion", <QF as Lerp<$F>>::lerp(p, q, f), false, true), ("Lerp::lerp_precise for Quaternion", <QF as Lerp<$F>>::lerp_precise(p, q, f), true, true),
+                    ("Lerp::lerp for &Quaternion", <&QF as Lerp<$F>>::lerp(&p, &q, f), false, true), ("Lerp::lerp_precise for &Quaternion", <&QF as Lerp<$F>>::lerp_precise(&p, &q, f), true, true) ];
+                for (name, g, precise, clamped) in forms {
+                    let ff = if clamped { fc } else { f };
+                    if ff == 0.0 { n_mix += 1; if !near(arr(g), arr(a)) { s.violation(&format!("{}<{}>", name, fname), "factor-0-is-not-the-direction-of-from(mixed magnitudes)", json!({"from": arr(p), "to": arr(q), "got": arr(g)})); } }
+                    if ff == 1.0 && precise { n_mix += 1; if !near(arr(g), arr(b)) { s.violation(&format!("{}<{}>", name, fname), "precise-factor-1-is-not-the-direction-of-to(mixed magnitudes)", json!({"from": arr(p), "to": arr(q), "got": arr(g)})); } }
+                }
+            } }
+        }
+    } }
+    s.evals(n_sc + n_mix + n_un, n_sc + n_mix + n_un);
+    s.class_n("power-of-two scaling", n_sc); s.class_n("mixed-magnitude endpoints", n_mix); s.class_n("unnormalized family on floats", n_un);
+}} }
+
+// ---- float scalars and vectors: adjacent endpoints, factors next to 0 and 1 and far outside, power-of-two scaling ----
+macro_rules! float_lerp_edges { ($s:expr, $F:ident, $mant:expr, $big:expr) => {{
+    let s: &Section = $s;
+    let eps = $F::EPSILON as f64; let u = eps / 2.0;
+    let site = |n: &str| format!("Lerp<{0}>::{1} for {0}", stringify!($F), n);
+    // (1) nearly equal endpoints: to = from stepped 1, 2, 3 and 4097 ulps up or down
+    let xs: [$F; 9] = [1.0, -1.0, 0.1, 123.456, -7.3, 1.0e10, 1.0e-10, $F::MIN_POSITIVE * 8.0, $F::MAX / 4.0];
+    let (mut n_adj, mut n_exact, mut n_fac, mut n_scale) = (0u64, 0u64, 0u64, 0u64);
+    for &x in &xs { for steps in [1i32, 2, 3, 4097, -1, -2, -4097] {
+        let mut y = x; for _ in 0..steps.abs() { y = if steps > 0 { y.next_up() } else { y.next_down() }; }
+        for (a, b) in [(x, y), (y, x)] { for f in [0.0 as $F, 1.0, 2.0, -1.0, 3.0, 0.5, 0.25, 0.1, 0.9, 1.0 - $F::EPSILON] {
+            n_adj += 1;
+            let fast = <$F as Lerp<$F>>::lerp_unclamped(a, b, f); let prec = <$F as Lerp<$F>>::lerp_unclamped_precise(a, b, f);
+            let inp = || json!({"from": a as f64, "to": b as f64, "ulps_apart": steps, "factor": f as f64, "fast": fast as f64, "precise": prec as f64});
+            // exact value as a rational scaled by 1/from (power-of-two free: compare through differences, all exact in f64 for F = f32; for f64 use Q on the ulp lattice)
+            let ulp = (x.next_up() - x).abs().min((x - x.next_down()).abs()) as f64;    // lattice step (exact power of two)
+            let (ai, bi) = ((a as f64 - x as f64) / ulp, (b as f64 - x as f64) / ulp);       // exact small integers
+            let fq = vx::fl::qf(f as f64);
+            // value - x = (ai + f (bi - ai)) ulp ; representable iff x/ulp + that rational fits the significand
+            let off = Q::int(ai as i128).add(fq.mul(Q::int((bi - ai) as i128)));
+            let xi = vx::fl::qf(x as f64 / ulp);   // x on the lattice: an integer < 2^mant
+            let val = xi.add(off);
+            if fits(val, $mant) && fits(Q::ONE.sub(fq), $mant) && fits(xi.add(Q::int(ai as i128)).mul(Q::ONE.sub(fq)), $mant) && fits(xi.add(Q::int(bi as i128)).mul(fq), $mant) {
+                // every intermediate of both formulas is representable: both must return the exact value
+                n_exact += 1;
+                let want = (val.to_f64() * ulp) as $F;
+                if fast != want { s.violation(&site("lerp_unclamped"), "nearly-equal-endpoints-exact-case-wrong", json!({"input": inp(), "want": want as f64})); }
+                if prec != want { s.violation(&site("lerp_unclamped_precise"), "nearly-equal-endpoints-exact-case-wrong", json!({"input": inp(), "want": want as f64})); }
+            }
+            // both ends exactly, also for the fast form: to - from is exact (Sterbenz) and from + (to - from) = to needs no rounding
+            if f == 0.0 && (fast != a || prec != a) { s.violation(&site("lerp_unclamped*"), "endpoint-0-not-exact", inp()); }
+            if f == 1.0 && (fast != b || prec != b) { s.violation(&site("lerp_unclamped*"), "endpoint-1-not-exact(nearly equal endpoints)", inp()); }
+            // derived bound: fast = one rounding of the exact value; precise = three roundings of terms <= (|1-f| + |f|) max
+            let want = (val.to_f64()) * ulp; let m = (a.abs() as f64).max(b.abs() as f64);
+            if !(((fast as f64) - want).abs() <= 2.0 * u * m * (1.0 + (f.abs() as f64))) { s.violation(&site("lerp_unclamped"), "nearly-equal-endpoints-outside-one-rounding", json!({"input": inp(), "want": want})); }
+            if !(((prec as f64) - want).abs() <= 8.0 * u * m * (1.0 + (f.abs() as f64))) { s.violation(&site("lerp_unclamped_precise"), "nearly-equal-endpoints-outside-three-roundings", json!({"input": inp(), "want": want})); }
+        } }
+    } }
+    // (2) factors next to 0 and 1 and far outside: clamped forms return the ends exactly (precise) / the fast value at the clamped factor
+    let ends: [$F; 8] = [0.1, -7.3, 123.456, 1.0 / 3.0, 0.0, -1.0e-3, 1.0e10, $F::MIN_POSITIVE * 8.0];
+    let lo_f: [$F; 6] = [-0.0, -$F::MIN_POSITIVE, -$F::EPSILON, -1.0, -1.0e30, -$F::MAX];
+    let hi_f: [$F; 5] = [(1.0 as $F).next_up(), 1.0 + 2.0 * $F::EPSILON, 2.0, 1.0e30, $F::MAX];
+    let in_f: [$F; 5] = [$F::MIN_POSITIVE, $F::EPSILON, (1.0 as $F).next_down(), 0.5, (0.5 as $F).next_up()];
+    for &a in &ends { for &b in &ends {
+        let one = <$F as Lerp<$F>>::lerp_unclamped(a, b, 1.0);
+        for &f in lo_f.iter().chain(hi_f.iter()).chain(in_f.iter()) {
+            let cl: $F = if f < 0.0 { 0.0 } else if f > 1.0 { 1.0 } else { f };
+            let (wf, wp) = if cl == 0.0 { (a, a) } else if cl == 1.0 { (one, b) } else { (<$F as Lerp<$F>>::lerp_unclamped(a, b, cl), <$F as Lerp<$F>>::lerp_unclamped_precise(a, b, cl)) };
+            let inp = || json!({"from": a as f64, "to": b as f64, "factor": f as f64});
+            for (n, g, w) in [("lerp", <$F as Lerp<$F>>::lerp(a, b, f), wf), ("lerp_precise", <$F as Lerp<$F>>::lerp_precise(a, b, f), wp), ("&lerp", <&$F as Lerp<$F>>::lerp(&a, &b, f), wf), ("&lerp_precise", <&$F as Lerp<$F>>::lerp_precise(&a, &b, f), wp),
+                              ("lerp_inclusive_range", <$F as Lerp<$F>>::lerp_inclusive_range(a..=b, f), wf), ("&lerp_precise_inclusive_range", <&$F as Lerp<$F>>::lerp_precise_inclusive_range(&a..=&b, f), wp)] {
+                n_fac += 1;
+                if !(g == w) { s.violation(&site(n), "clamped-form-wrong-for-a-factor-next-to-or-far-outside-[0,1]", json!({"input": inp(), "got": g as f64, "want": w as f64})); }
+            }
+            // unclamped at a factor within one ulp of 0 or 1: exact value from rationals, one / three roundings
+            if f.abs() <= 4.0 { if let Some(want) = exact_lerp(a as f64, b as f64, f as f64) {
+                let m = (a.abs() as f64).max(b.abs() as f64) * (1.0 + (f.abs() as f64));
+                for (n, g, k) in [("lerp_unclamped", <$F as Lerp<$F>>::lerp_unclamped(a, b, f), 4.0), ("lerp_unclamped_precise", <$F as Lerp<$F>>::lerp_unclamped_precise(a, b, f), 8.0)] {
+                    n_fac += 1;
+                    if !(((g as f64) - want).abs() <= k * u * m + ($F::MIN_POSITIVE as f64) * ($F::EPSILON as f64)) { s.violation(&site(n), "factor-next-to-0-or-1-outside-the-rounding-bound", json!({"input": inp(), "got": g as f64, "want": want})); }
+                }
+            } }
+        }
+    } }
+    // (3) scaling both endpoints by 2^e scales the result exactly (no overflow / underflow in range): all four base forms
+    let ends2: [$F; 8] = [0.1, -7.3, 123.456, 1.0 / 3.0, 0.0, -1.0e-3, 17.0, -0.6];
+    let facs2: [$F; 8] = [0.0, 1.0, 0.1, 1.0 / 3.0, 0.9, -0.37, 1.63, $F::EPSILON];
+    for &a in &ends2 { for &b in &ends2 { for &f in &facs2 { for e in [$big, -$big, 40, -40] {
+        let k = (2.0 as $F).powi(e);
+        for (n, g, w) in [("lerp_unclamped", <$F as Lerp<$F>>::lerp_unclamped(a * k, b * k, f), <$F as Lerp<$F>>::lerp_unclamped(a, b, f) * k), ("lerp_unclamped_precise", <$F as Lerp<$F>>::lerp_unclamped_precise(a * k, b * k, f), <$F as Lerp<$F>>::lerp_unclamped_precise(a, b, f) * k),
+                          ("lerp", <$F as Lerp<$F>>::lerp(a * k, b * k, f), <$F as Lerp<$F>>::lerp(a, b, f) * k), ("&lerp_precise", <&$F as Lerp<$F>>::lerp_precise(&(a * k), &(b * k), f), <$F as Lerp<$F>>::lerp_precise(a, b, f) * k)] {
+            n_scale += 1;
+            if !(g == w) { s.violation_w(&site(n), "not-covariant-under-scaling-both-endpoints-by-a-power-of-two", json!({"from": a as f64, "to": b as f64, "factor": f as f64, "scale": format!("2^{}", e), "got": g as f64, "want": w as f64}), e.unsigned_abs() as u64); }
+        }
+    } } } }
+    s.evals(n_adj * 2 + n_fac + n_scale, n_adj * 2 + n_fac + n_scale);
+    s.class_n("nearly equal endpoints", n_adj); s.class_n("nearly equal endpoints, every intermediate exact", n_exact); s.class_n("factor next to 0/1 or far outside", n_fac); s.class_n("power-of-two scaling (scalars)", n_scale);
+}} }
+
+// vectors: special lanes (zero, equal ends, signed zero, one non-zero lane, mixed magnitudes) and power-of-two scaling through all forms
+macro_rules! vec_lerp_edges { ($s:expr, $V:ident, $F:ident, $big:expr) => {{
+    let s: &Section = $s;
+    let n = <$V<$F> as VecN<$F>>::N; let name = <$V<$F> as VecN<$F>>::NAME; let fname = stringify!($F);
+    let mkv = |e: &dyn Fn(usize) -> $F| -> $V<$F> { <$V<$F> as VecN<$F>>::from_elems((0..n).map(|i| e(i)).collect()) };
+    let sp: [($F, $F); 12] = [(0.0, 0.0), (0.1, 0.1), (0.0, -7.3), (123.456, 0.0), (-0.0, 0.3), (1.0e20, 0.1), (0.1, -1.0e20), (1.0, (1.0 as $F).next_up()), (1.0e-20, 1.0e10), (-1.0, 1.0), (0.7, -0.7), (3.0, 3.0)];
+    let facs: [$F; 7] = [-0.5, 0.0, 0.3, 1.0 / 3.0, 1.0, 1.5, 0.9];
+    let cl = |x: $F| -> $F { if x < 0.0 { 0.0 } else if x > 1.0 { 1.0 } else { x } };
+    let mut evals = 0u64;
+    // rounds: r < 12: lane i takes special pair (i + r) mod 12; r >= 12: exactly one lane (r - 12) mod n non-zero
+    for r in 0..(12 + n.min(4)) {
+        let pair = |i: usize| -> ($F, $F) { if r < 12 { sp[(i + r) % 12] } else if i == (r - 12) * (n - 1) / 3usize.max(1) % n { (0.3, -7.3) } else { (0.0, 0.0) } };
+        let (a, b) = (mkv(&|i| pair(i).0), mkv(&|i| pair(i).1));
+        let (al, bl) = (a.into_elems(), b.into_elems());
+        for (fi, &f) in facs.iter().enumerate() {
+            let fv = mkv(&|i| facs[(fi + i) % facs.len()]); let fvl = fv.into_elems();
+            let forms: Vec<(&str, $V<$F>, bool, bool, bool)> = vec![
+                ("lerp_unclamped(scalar factor)", $V::lerp_unclamped(a, b, f), false, false, false), ("lerp_unclamped_precise(scalar factor)", $V::lerp_unclamped_precise(a, b, f), true, false, false),
+                ("lerp(scalar factor)", $V::lerp(a, b, f), false, true, false), ("lerp_precise(scalar factor)", $V::lerp_precise(a, b, f), true, true, false),
+                ("lerp_unclamped(vector factor)", $V::lerp_unclamped(a, b, fv), false, false, true), ("lerp_unclamped_precise(vector factor)", $V::lerp_unclamped_precise(a, b, fv), true, false, true),
+                ("lerp(vector factor)", $V::lerp(a, b, fv), false, true, true), ("lerp_precise(vector factor)", $V::lerp_precise(a, b, fv), true, true, true),
+                ("Lerp::lerp_unclamped", <$V<$F> as Lerp<$F>>::lerp_unclamped(a, b, f), false, false, false), ("Lerp::lerp_unclamped_precise", <$V<$F> as Lerp<$F>>::lerp_unclamped_precise(a, b, f), true, false, false),
+                ("&Lerp::lerp", <&$V<$F> as Lerp<$F>>::lerp(&a, &b, f), false, true, false), ("&Lerp::lerp_precise", <&$V<$F> as Lerp<$F>>::lerp_precise(&a, &b, f), true, true, false),
+            ];
+            for (label, got, precise, clamped, per_lane) in forms {
+                let g = got.into_elems(); let site = format!("{}<{}>::{}", name, fname, label);
+                for i in 0..n {
+                    evals += 1;
+                    let f0 = if per_lane { fvl[i] } else { f }; let ff = if clamped { cl(f0) } else { f0 };
+                    let inp = || json!({"lane": i, "from": al[i] as f64, "to": bl[i] as f64, "factor": f0 as f64, "got": g[i] as f64});
+                    if ff == 0.0 && g[i] != al[i] { s.violation_w(&site, "endpoint-0-not-exact", inp(), i as u64); }
+                    if ff == 1.0 && precise && g[i] != bl[i] { s.violation_w(&site, "endpoint-1-not-exact", inp(), i as u64); }
+                    if al[i] == bl[i] && !precise && g[i] != al[i] { s.violation_w(&site, "equal-ends-not-fixed-by-the-fast-form", inp(), i as u64); }   // f * 0 + from = from exactly
+                    if let Some(want) = exact_lerp(al[i] as f64, bl[i] as f64, ff as f64) {
+                        let tol = vx::fl::K * ($F::EPSILON as f64) * (al[i].abs() as f64).max(bl[i].abs() as f64) * (1.0 + ff.abs() as f64) * 2.0;
+                        if !(((g[i] as f64) - want).abs() <= tol) { s.violation_w(&site, "lane-not-affine-within-error-bound", json!({"input": inp(), "want": want, "tolerance": tol}), i as u64); }
+                    }
+                }
+            }
+        }
+    }
+    // power-of-two scaling of lane-distinct ordinary endpoints: every form, every lane, exactly covariant
+    let fe = |i: usize| -> $F { ((i * 37 + 11) % 101) as $F * 0.173 - 8.1 }; let te = |i: usize| -> $F { ((i * 53 + 29) % 103) as $F * 0.291 - 15.3 };
+    let (a, b) = (mkv(&fe), mkv(&te));
+    for &f in &[0.3 as $F, 1.0 / 3.0, 1.0, -0.5, 0.0] { for e in [$big, -$big] {
+        let k = (2.0 as $F).powi(e);
+        let (ak, bk) = (mkv(&|i| fe(i) * k), mkv(&|i| te(i) * k));
+        let fv = mkv(&|i| facs[(i * 3 + 1) % facs.len()]);
+        let forms: Vec<(&str, $V<$F>, $V<$F>)> = vec![
+            ("lerp_unclamped(scalar factor)", $V::lerp_unclamped(ak, bk, f), $V::lerp_unclamped(a, b, f)), ("lerp_unclamped_precise(scalar factor)", $V::lerp_unclamped_precise(ak, bk, f), $V::lerp_unclamped_precise(a, b, f)),
+            ("lerp(vector factor)", $V::lerp(ak, bk, fv), $V::lerp(a, b, fv)), ("lerp_precise(vector factor)", $V::lerp_precise(ak, bk, fv), $V::lerp_precise(a, b, fv)),
+            ("Lerp::lerp_unclamped", <$V<$F> as Lerp<$F>>::lerp_unclamped(ak, bk, f), <$V<$F> as Lerp<$F>>::lerp_unclamped(a, b, f)), ("&Lerp::lerp_unclamped_precise", <&$V<$F> as Lerp<$F>>::lerp_unclamped_precise(&ak, &bk, f), <$V<$F> as Lerp<$F>>::lerp_unclamped_precise(a, b, f)),
+        ];
+        for (label, got, base) in forms { let (g, w) = (got.into_elems(), base.into_elems()); for i in 0..n { evals += 1;
+            if !(g[i] == w[i] * k) { s.violation_w(&format!("{}<{}>::{}", name, fname, label), "lane-not-covariant-under-scaling-both-endpoints-by-a-power-of-two", json!({"lane": i, "from": fe(i) as f64, "to": te(i) as f64, "scale": format!("2^{}", e), "got": g[i] as f64, "want": (w[i] * k) as f64}), i as u64); } } }
+    } }
+    s.evals(evals, evals); s.class(name);
+}} }
+
+// ---- integers: factors one ulp around rounding ties and around 0 / 1, and far outside [0,1] for the clamped forms ----
+macro_rules! int_lerp_f { ($s:expr, $T:ty, $F:ident, $mant:expr, $acc:expr) => {{
+    let s: &Section = $s;
+    let tname = stringify!($T); let fname = stringify!($F);
+    let (tmin, tmax) = (<$T>::MIN as i128, <$T>::MAX as i128);
+    let mut pairs: Vec<(i128, i128)> = vec![(0, 1), (1, 0), (0, 2), (2, 0), (1, 2), (2, 1), (0, 4), (4, 0), (1, 3), (3, 1), (0, 64), (64, 0), (0, 100), (100, 0), (7, 8), (0, 3), (3, 0), (5, 10),
+        (0, -1), (-1, 0), (-1, 1), (1, -1), (0, -2), (-2, 0), (-4, 0), (0, -64), (-64, 64), (0, -3), (-3, 3),
+        (tmin, tmin + 1), (tmin + 1, tmin), (tmax - 1, tmax), (tmax, tmax - 1), (tmin, tmax), (tmax, tmin), (tmin, tmin + 2), (tmax, tmax - 2), (tmin, 0), (0, tmax), (tmax, 0)];
+    if s.thorough() { for a in -12i128..=12 { for b in -12i128..=12 { pairs.push((a, b)); } } for k in 0..100 { let p = 1i128 << k; pairs.extend([(0, p), (p, 0), (0, -p), (-p, 0), (p, 2 * p), (-p, p)]); } }
+    pairs.retain(|&(a, b)| a >= tmin && a <= tmax && b >= tmin && b <= tmax);
+    pairs.sort(); pairs.dedup();
+    let mut facs: Vec<$F> = Vec::new();
+    if s.thorough() { for k in 1..=12 { let t = (2.0 as $F).powi(-k); for j in [1.0 as $F, 3.0, 5.0, 7.0] { let v = t * j; facs.extend([v.next_down(), v.next_up(), (-v).next_down(), (-v).next_up(), (1.0 + v).next_down(), (1.0 + v).next_up()]); } } }
+    for t in [0.5 as $F, 0.25, 0.75, 0.125, 0.375, 1.5, 2.5, -0.5, -1.5, 1.0, 0.0, 2.0, -1.0, 1.0 / 6.0, 5.0 / 6.0] { facs.extend([t.next_down(), t, t.next_up()]); }
+    facs.extend([$F::MIN_POSITIVE, -$F::MIN_POSITIVE, $F::EPSILON, 1.0 - $F::EPSILON, 1.0 + $F::EPSILON, -0.0]);
+    for &(from, to) in &pairs {
+        let (a, b) = (from as $T, to as $T);
+        let m = $mant;
+        let endpoints_exact = fits(Q::int(from), m) && fits(Q::int(to), m);
+        for &f in &facs {
+            let Some(fq) = Q::from_f64(f as f64) else { continue };
+            let Ok((exact, exact_cl, p1, p2, omf, want, want_cl, near_tie)) = catch(|| { let fcl = clamp01q(fq);
+                let (exact, exact_cl) = (Q::int(from).add(fq.mul(Q::int(to - from))), Q::int(from).add(fcl.mul(Q::int(to - from))));
+                let fr = exact.sub(exact.floor()).sub(Q::new(1, 2)).abs();
+                (exact, exact_cl, Q::int(from).mul(Q::ONE.sub(fq)), Q::int(to).mul(fq), Q::ONE.sub(fq), round_half_away(exact), round_half_away(exact_cl), fr != Q::ZERO && fr.to_f64() < 1.0e-6) }) else { $acc.0 += 1; continue };
+            // the float formulas are exact when every intermediate is representable (checked in exact rationals): fast = one fma of
+            // (to - from), precise = from (1 - f) + to f with 1 - f exact
+            let fast_exact = endpoints_exact && fits(Q::int(to - from), m) && fits(exact, m);
+            let precise_exact = endpoints_exact && fits(omf, m) && fits(p1, m) && fits(p2, m) && fits(exact, m);
+            let clamped_differs = exact_cl != exact;
+            let forms: [(&str, bool, i128, Result<$T, Caught>); 8] = [
+                ("lerp_unclamped", fast_exact, want, catch(|| <$T as Lerp<$F>>::lerp_unclamped(a, b, f))),
+                ("lerp_unclamped_precise", precise_exact, want, catch(|| <$T as Lerp<$F>>::lerp_unclamped_precise(a, b, f))),
+                ("lerp", fast_exact || (clamped_differs && endpoints_exact && fits(Q::int(to - from), m)), want_cl, catch(|| <$T as Lerp<$F>>::lerp(a, b, f))),
+                ("lerp_precise", precise_exact || (clamped_differs && endpoints_exact), want_cl, catch(|| <$T as Lerp<$F>>::lerp_precise(a, b, f))),
+                ("&lerp_unclamped", fast_exact, want, catch(|| <&$T as Lerp<$F>>::lerp_unclamped(&a, &b, f))),
+                ("&lerp_unclamped_precise", precise_exact, want, catch(|| <&$T as Lerp<$F>>::lerp_unclamped_precise(&a, &b, f))),
+                ("&lerp", fast_exact || (clamped_differs && endpoints_exact && fits(Q::int(to - from), m)), want_cl, catch(|| <&$T as Lerp<$F>>::lerp(&a, &b, f))),
+                ("&lerp_precise", precise_exact || (clamped_differs && endpoints_exact), want_cl, catch(|| <&$T as Lerp<$F>>::lerp_precise(&a, &b, f))),
+            ];
+            for (label, ok, w, got) in forms {
+                if !ok || w < tmin || w > tmax { $acc.0 += 1; continue; }
+                $acc.1 += 1; if near_tie { $acc.2 += 1; }
+                let site = format!("Lerp<{}>::{} for {}", fname, label, tname);
+                let d = || json!({"from": from.to_string(), "to": to.to_string(), "factor": f as f64, "factor_exact": format!("{}", fq), "exact_value": format!("{}", exact), "want": w.to_string()});
+                match got {
+                    Ok(g) => if g as i128 != w { s.violation_w(&site, "wrong-value-at-a-factor-one-ulp-from-a-tie-or-an-end", json!({"input": d(), "got": (g as i128).to_string()}), (from.unsigned_abs() + to.unsigned_abs()).min(u64::MAX as u128) as u64) },
+                    Err(Caught::Panic(p)) => s.violation_w(&site, "panic", json!({"input": d(), "panic": p}), (from.unsigned_abs() + to.unsigned_abs()).min(u64::MAX as u128) as u64),
+                    Err(Caught::Unmodelled(u)) => s.unmodelled(u),
+                }
+            }
+        }
+        // factors far outside [0,1] (no rational needed): the clamped forms return the ends
+        if endpoints_exact && fits(Q::int(to - from), m) {
+            for (f, w) in [(1.0e30 as $F, to), ($F::MAX, to), (3.0e9, to), (-1.0e30, from), (-$F::MAX, from), (-3.0e9, from)] {
+                for (label, got) in [("lerp", catch(|| <$T as Lerp<$F>>::lerp(a, b, f))), ("lerp_precise", catch(|| <$T as Lerp<$F>>::lerp_precise(a, b, f))), ("&lerp", catch(|| <&$T as Lerp<$F>>::lerp(&a, &b, f))), ("&lerp_precise", catch(|| <&$T as Lerp<$F>>::lerp_precise(&a, &b, f))),
+                                     ("lerp_inclusive_range", catch(|| <$T as Lerp<$F>>::lerp_inclusive_range(a..=b, f))), ("&lerp_precise_inclusive_range", catch(|| <&$T as Lerp<$F>>::lerp_precise_inclusive_range(&a..=&b, f)))] {
+                    $acc.1 += 1; $acc.3 += 1;
+                    let site = format!("Lerp<{}>::{} for {}", fname, label, tname);
+                    match got { Ok(g) => if g as i128 != w { s.violation(&site, "clamped-form-wrong-for-a-factor-far-outside-[0,1]", json!({"from": from.to_string(), "to": to.to_string(), "factor": f as f64, "got": (g as i128).to_string(), "want": w.to_string()})); },
+                                Err(e) => s.violation(&site, "panic", json!({"from": from.to_string(), "to": to.to_string(), "factor": f as f64, "error": format!("{:?}", e)})) }
+                }
+            }
+        }
+    }
+}} }
+
 fn main() {
     let rep = Report::start("C12", "exploration");
     let d = if rep.thorough() { 6 } else { 4 };
@@ -1035,6 +1424,11 @@ fn main() {
         ties!(i16, "i16", vec![(0, 1), (-32768, 32767), (300, -300), (-7, 0)], "f64 factor, 8/16-bit endpoints");
         ties!(i32, "i32", vec![(0, 1), (-1000, 1000), (100000, 100009), (1 << 20, 0)], "f64 factor, wide endpoints");
         ties!(i64, "i64", vec![(0, 1), (-1000, 1000), (1 << 20, -(1 << 20))], "f64 factor, wide endpoints");
+        // (second-pass audit) the remaining members of the integer impl list
+        ties!(u32, "u32", vec![(0, 1), (1000, 0), (100000, 100009), (1 << 20, 7)], "f64 factor, wide endpoints");
+        ties!(u64, "u64", vec![(0, 1), (1000, 0), (3, 1 << 20)], "f64 factor, wide endpoints");
+        ties!(isize, "isize", vec![(0, 1), (-1000, 1000), (1 << 20, -(1 << 20))], "f64 factor, wide endpoints");
+        ties!(usize, "usize", vec![(0, 1), (1000, 0), (100000, 100009)], "f64 factor, wide endpoints");
     });
 
     rep.section("quaternion slerp, exact, general endpoints (from = q0 r^k1, to = +-q0 r^(k1+4))",
@@ -1152,6 +1546,38 @@ fn main() {
             }
         }
         s.sample(json!({"T": "f32", "start": 0.1, "end": -7.3, "mapper": "x^2", "progress": 0.3, "current_unclamped": <f32 as Lerp<f32>>::lerp_unclamped(0.1, -7.3, 0.09), "current_unclamped_precise": <f32 as Lerp<f32>>::lerp_unclamped_precise(0.1, -7.3, 0.09)}));
+    });
+
+    // =================================================================================================
+    // sections added by the second-pass audit (out/AUDIT2.md): special values, thresholds, family members
+    // =================================================================================================
+    rep.section("quaternion slerp / nlerp on an arc-length ladder: below, at and above the near-parallel threshold, narrow, nearly orthogonal (f64, f32)",
+        "7 unit quaternions (identity, a single non-zero lane, general, w < 0) x up to 3 tangent directions x ~50 arc angles (thorough ~200: a 40-step sweep across the threshold, {1,2,5} x 10^-k and pi/2 +- those; 16 factors) (0; 0.1 .. 4 x the fallback threshold sqrt(2 eps) of the element type; the f32 threshold inside the f64 ladder; 1e-12 .. 0.5; pi/2 +- {1e-1 .. 1e-12}; up to 3.0) x both signs of `to` (so nearly antiparallel 4-vectors = nearly the same rotation occur) x 10 factors in [-0.5, 2]: reference from the rounded inputs (compensated dot product, one-rounding Gram-Schmidt, theta = atan2(|u|, |dot|)); slerp_unclamped within 64 eps (1+|f|)^2 of cos(f theta) a + sin(f theta) e2 and of unit length (bound explained in the code: the sin ratios are insensitive to the error of acos); pairs with |dot| <= 64 eps skipped (shorter arc undefined); trait/clamped slerp forms bit-identical; 8 nlerp forms: the normalized component interpolation within 16 eps (1+|f|)/|lerp| and unit within 3 eps (derived: 4u dot, sqrt, division); non-trivial: all", true, false, |s| {
+        s.require_classes(&["arc below the fallback threshold", "arc within [0.95, 4] x threshold", "narrow arc (threshold x4 .. 0.05)", "nearly orthogonal pair (dot next to 0, both signs)", "ordinary arc", "nlerp on the ladder"]);
+        quat_narrow!(s, f64); quat_narrow!(s, f32);
+        s.sample(json!({"from": [0.0, 0.0, 0.0, 1.0], "to": "cos(t) from + sin(t) e, t = 1e-4", "law": "slerp_unclamped(from, to, f) = cos(f t) from + sin(f t) e within 64 eps (1+|f|)^2; a denominator sqrt(1 - cos^2) instead of sin(acos) is off by eps / t^2 = 2e-8 here"}));
+    });
+
+    rep.section("nlerp and the unnormalized quaternion lerp on floats: power-of-two scaling, mixed magnitudes (f64, f32)",
+        "6x6 ordered pairs of unit quaternions x 7 factors: (1) scaling both endpoints by 2^e (e = +-40 for f32; +-40, +-400 for f64: every squared length representable) leaves the four nlerp forms bit-identical and scales the four *_unnormalized forms exactly (every intermediate scales exactly, so no tolerance); (2) the *_unnormalized family on floats: factor 0 -> from exactly, precise factor 1 -> to exactly also for endpoints 2^40 / 2^-40 apart in magnitude, clamped = unclamped at the clamped factor bitwise, lanes within 256 eps 2 max (1+|f|) of the exact rational value; (3) nlerp of endpoints scaled 2^40 and 2^-40: all 8 forms reach the direction of `from` at (clamped) factor 0, the precise forms the direction of `to` at factor 1, within 8 eps; non-trivial: all", true, false, |s| {
+        s.require_classes(&["power-of-two scaling", "mixed-magnitude endpoints", "unnormalized family on floats"]);
+        quat_scale!(s, f64, &[40, -40, 400, -400]); quat_scale!(s, f32, &[40, -40]);
+    });
+
+    rep.section("float Lerp (scalars and 13 vector types): nearly equal endpoints, factors next to 0 / 1 and far outside, special lanes, power-of-two scaling",
+        "scalars f64/f32: (1) 9 values x to = from stepped +-1, 2, 3, 4097 ulps x both orders x 10 factors: both ends exact for BOTH formulas (to - from is exact), the exact value (rationals on the ulp lattice) whenever every intermediate is representable, otherwise within one (fast) / three (precise) roundings; (2) 8^2 endpoint pairs x 16 factors (-0.0, -MIN_POSITIVE, -eps, -1, -1e30, -MAX, next_up(1), 1+2eps, 2, 1e30, MAX, MIN_POSITIVE, eps, next_down(1), 0.5, next_up(0.5)): 6 clamped forms return from / to exactly (precise) or the fast value at the clamped factor, unclamped forms within the derived rounding bound of the exact rational value; (3) 8^2 pairs x 8 factors x scales 2^+-40, 2^+-500 (f32: 2^+-60): result scales exactly; vectors: 12 special lane pairs (0/0, equal, signed zero, 1e20 vs 0.1, adjacent floats, ...) rotated through every lane, single-non-zero-lane inputs, 12 forms: ends exact, equal ends fixed, lanes within the bound; 6 forms exactly covariant under scaling; non-trivial: all", true, false, |s| {
+        s.require_classes(&["nearly equal endpoints", "nearly equal endpoints, every intermediate exact", "factor next to 0/1 or far outside", "power-of-two scaling (scalars)", "Vec2", "Vec3", "Vec4", "Vec8", "Vec16", "Vec32", "Vec64", "Extent2", "Extent3", "Rgb", "Rgba", "Uv", "Uvw"]);
+        float_lerp_edges!(s, f64, 53, 500); float_lerp_edges!(s, f32, 24, 60);
+        for_all_vecs!(V => { vec_lerp_edges!(s, V, f64, 500); vec_lerp_edges!(s, V, f32, 60); });
+    });
+
+    rep.section("integer Lerp, all 10 types: factors one ulp around rounding ties and around 0 / 1, factors far outside [0,1]",
+        "i8..usize x {f32, f64} x ~40 endpoint pairs (0/1, 1/0, powers of two, small descending, negative, the range limits; thorough: + all pairs in [-12,12]^2 and (0, +-2^k), (2^k, 2^(k+1)) for every k) x 51 factors (thorough: + prev/next of j 2^-k, -j 2^-k, 1 + j 2^-k, j in {1,3,5,7}, k <= 12) (prev / exact / next float of 0.5, 0.25, 0.75, 0.125, 0.375, 1.5, 2.5, -0.5, -1.5, 1, 0, 2, -1, 1/6, 5/6; MIN_POSITIVE, eps, 1 +- eps, -0.0) x 8 forms: the factor is converted exactly; asserted whenever every intermediate of the float formula is representable (then it has no rounding at all and must give the exact value rounded half away from zero - e.g. lerp(0, 1, prev(0.5)) = 0); clamped forms additionally for every factor outside [0,1]; 6 clamped forms at factors +-3e9, +-1e30, +-MAX return the ends; non-trivial: asserted cases", true, false, |s| {
+        s.require_classes(&["asserted: i8", "asserted: u8", "asserted: i16", "asserted: u16", "asserted: i32", "asserted: u32", "asserted: i64", "asserted: u64", "asserted: isize", "asserted: usize", "exact value within 2^-20 of a tie, not on it", "factor far outside [0,1]"]);
+        macro_rules! one { ($T:ty) => {{ let mut acc = (0u64, 0u64, 0u64, 0u64); int_lerp_f!(s, $T, f32, 24, acc); int_lerp_f!(s, $T, f64, 53, acc);
+            s.evals(acc.0 + acc.1, acc.1); s.class_n(concat!("asserted: ", stringify!($T)), acc.1); s.class_n("exact value within 2^-20 of a tie, not on it", acc.2); s.class_n("factor far outside [0,1]", acc.3); s.class_n("skipped(an intermediate of the float formula is not representable, or result outside the range)", acc.0); }} }
+        one!(i8); one!(u8); one!(i16); one!(u16); one!(i32); one!(u32); one!(i64); one!(u64); one!(isize); one!(usize);
+        s.sample(json!({"call": "<u8 as Lerp<f64>>::lerp_unclamped(0, 1, 0.49999999999999994)", "exact": "0.49999999999999994", "want": 0, "note": "x + 0.5 rounds to 1.0 in f64: truncating (x + 0.5) gives 1"}));
     });
     std::process::exit(rep.finish());
 }
